@@ -134,6 +134,8 @@ impl Condvar {
         if left > 0 {
             TIMEOUT_BUDGET.store(left - 1, StdOrdering::SeqCst);
             TIMEOUTS_FIRED.fetch_add(1, StdOrdering::SeqCst);
+            // the wait took time: let the other threads run before this one goes on
+            loom::thread::yield_now();
             return Ok((guard, WaitTimeoutResult(true)));
         }
         let guard = match self.inner.wait(guard) {
@@ -158,6 +160,8 @@ impl Condvar {
             if left > 0 {
                 TIMEOUT_BUDGET.store(left - 1, StdOrdering::SeqCst);
                 TIMEOUTS_FIRED.fetch_add(1, StdOrdering::SeqCst);
+                // the wait took time: let the other threads run before this one goes on
+                loom::thread::yield_now();
                 return Ok((guard, WaitTimeoutResult(true)));
             }
             guard = match self.inner.wait(guard) {
